@@ -26,7 +26,9 @@ def fn_candidates(facts, pred_text):
         with open(os.path.join(facts.dir, fn), 'rb') as fh:
             for line in fh:
                 if needle in line:
-                    yield json.loads(line)
+                    a = json.loads(line)
+                    if facts.lib_path(a['file']) or common.is_fixture(a):
+                        yield a
 
 
 def fixture_summary(rule, rname, fired, all_fx):
